@@ -438,19 +438,23 @@ def check_summaries(ctx):
     rep.functions.add(fc.qualname)
     gmc = guard_map(fc.node)
     rs = [s for s in stmts_in(fc.node.body) if isinstance(s, ast.Raise)]
-    ex = [r for r in rs if ('true', 'db_params') in path_atoms(gmc[r]) and ('isnot', 'None', 'kspec') in path_atoms(gmc[r])]
+    ksd = [s for s in fc.node.body if isinstance(s, ast.Assign) and isinstance(s.value, ast.Call) and (m.resolve_call(fc, s.value) or '').endswith('kspec_from_params')]
+    rep.require(len(ksd) == 1, 'signatures create: kspec_from_params result not assigned')
+    KS = u(ksd[0].targets[0])
+    ex = [r for r in rs if ('true', 'db_params') in path_atoms(gmc[r]) and ('isnot', 'None', KS) in path_atoms(gmc[r])]
     rep.add('P3', fc.site(ex[0] if ex else None), 'signatures create: explicit -k/--prefix together with --db-params is an error', len(ex) == 1 and m.resolve(fc.module, ex[0].exc.func) in CLICK_ERRORS,
             expected='raise click.ClickException under db_params and kspec is not None', found=[(u(r)[:50], sorted(path_atoms(gmc[r]))) for r in rs][:3], stmt='create exclusivity')
-    asg = [s for s in stmts_in(fc.node.body) if isinstance(s, ast.Assign) and u(s.targets[0]) == 'kspec']
-    dbk = [s for s in asg if ('true', 'db_params') in path_atoms(gmc[s]) and ('is', 'None', 'kspec') in path_atoms(gmc[s])]
-    okd = len(dbk) == 1 and u(dbk[0].value) in ('ctx.obj.signatures.kmerspec', 'ctxobj.signatures.kmerspec')
+    asg = [s for s in stmts_in(fc.node.body) if isinstance(s, ast.Assign) and u(s.targets[0]) == KS]
+    dbk = [s for s in asg if ('true', 'db_params') in path_atoms(gmc[s]) and ('is', 'None', KS) in path_atoms(gmc[s])]
+    okd = len(dbk) == 1 and u(dbk[0].value).endswith('.signatures.kmerspec') and (u(dbk[0].value).startswith('ctx.obj.') or any(
+        isinstance(x, ast.Assign) and u(x.value) == 'ctx.obj' and u(dbk[0].value).startswith(u(x.targets[0]) + '.') for x in stmts_in(fc.node.body)))
     rep.add('P3', fc.site(dbk[0] if dbk else None), "--db-params takes the parameters from the database's signatures", okd, expected='kspec = ctx.obj.signatures.kmerspec', found=[u(s) for s in dbk], stmt='create db params')
     dfl = [s for s in asg if m.resolve(fc.module, s.value) == 'gambit.kmers.DEFAULT_KMERSPEC']
-    okdf = len(dfl) == 1 and path_atoms(gmc[dfl[0]]) >= {('false', 'db_params'), ('is', 'None', 'kspec')}
+    okdf = len(dfl) == 1 and path_atoms(gmc[dfl[0]]) >= {('false', 'db_params'), ('is', 'None', KS)}
     rep.add('P3', fc.site(dfl[0] if dfl else None), 'the default parameters are used only when neither explicit parameters nor --db-params are given', okdf, expected='elif kspec is None: kspec = DEFAULT_KMERSPEC',
             found=[(u(s), sorted(path_atoms(gmc[s]))) for s in dfl], stmt='create default')
     calc = [c for c in calls_in(fc.node) if (m.resolve_call(fc, c) or '').endswith('calc_file_signatures')]
-    rep.add('P3', fc.site(calc[0] if calc else None), 'signatures are computed with the reconciled parameters', len(calc) == 1 and u(calc[0].args[0]) == 'kspec', expected='calc_file_signatures(kspec, ...)', found=[u(c)[:60] for c in calc],
+    rep.add('P3', fc.site(calc[0] if calc else None), 'signatures are computed with the reconciled parameters', len(calc) == 1 and u(calc[0].args[0]) == KS, expected='calc_file_signatures(kspec, ...)', found=[u(c)[:60] for c in calc],
             stmt='create compute')
 
 
